@@ -25,6 +25,13 @@ def run(ctx: evid.Ctx) -> None:
             res = sess.explore(role, b[role] if base == 0 else min(b[role], 2), known, ctx.seed, parallel=True, prop=PROP, id_base=base)
             sess.report(ctx, PROP, role, b[role] if base == 0 else min(b[role], 2), res, base)
             ctx.note(f"{role}_bfs_levels_base{base}", res.levels)
+    for role in ROLES:
+        nh, steps, viols = sess.long_runs(role, known, PROP)
+        ctx.add("long_run_histories", nh)
+        ctx.add("long_run_steps", steps)
+        ctx.add("transitions", steps)
+        for (p, k), e in viols.items():
+            ctx.violation(k, e["what"], {"role": role, "K": 10**9, "history": [list(x) for x in e["history"]]}, e["count"])
     ctx.counters["evaluations"] = ctx.counters.get("transitions", 0)
     ctx.rule = (
         "explicit-state BFS to a fixpoint over one real session; a state is (structural freeze of the session object, "
@@ -35,7 +42,8 @@ def run(ctx: evid.Ctx) -> None:
     ctx.bounds = {"K": b, "alphabet": {r: len(sess.events(r, b[r])) for r in ROLES}, "outgoing_buffer": "drained after every event"}
     ctx.assumptions = [
         "deliveries are whole PDUs here (chunking is C02's subject); the outgoing buffer is drained after every event (C12 keeps it)",
-        "an edge violating any C08/C09/C10 monitor is not expanded unless the violation is a listed known finding",
+        "an edge violating a monitor of this property is not expanded unless the violation is a listed known finding",
+        "beyond the exhaustive bound, a fixed set of long structured histories (4/9/33 operations in flight, 3 bind cycles, ids up to 2^64) is run through the same monitors",
     ]
 
 
